@@ -126,20 +126,39 @@ Print Assumptions C19_instances_are_critical_sections.
 Theorem C19_lru_spec : forall c, 1 <= cap c ->
   (forall k v, alookup k (items (lru_set c k v)) = Some v) /\
   (forall call, length (items c) <= cap c ->
-     cap (fst (lru_exec call c)) = cap c /\ length (items (fst (lru_exec call c))) <= cap c).
-Proof. intros c Hc. split; [intros; apply lru_read_your_write; exact Hc | intros; apply lru_size_bounded; auto]. Qed.
+     cap (fst (lru_exec call c)) = cap c /\ length (items (fst (lru_exec call c))) <= cap c) /\
+  (* an update of a key that is already cached evicts nothing and touches no other key (with and without
+     mark_on_update) *)
+  (forall k v x k', length (items c) <= cap c -> alookup k (items c) = Some x -> k' <> k ->
+     alookup k' (items (lru_set c k v)) = alookup k' (items c) /\
+     alookup k' (items (lru_set_nomark c k v)) = alookup k' (items c)).
+Proof.
+  intros c Hc. split; [intros; apply lru_read_your_write; exact Hc|].
+  split; [intros; apply lru_size_bounded; auto|]. intros; eapply lru_update_keeps_others; eauto.
+Qed.
 Print Assumptions C19_lru_spec.
 
 (* TextFileSource: a call whose stat sees file state w1 and whose read sees w2 >= w1 (an edit in between is
    allowed) answers exactly as for ONE file state wr, w1 <= wr <= w2, and leaves a consistent snapshot *)
 Theorem C19_text_call_spec : forall contents bad ce c l o w1 w2 l1 o1 l2 o2,
-  t_inv contents bad o w1 -> w1 <= w2 -> tc l = c ->
+  t_inv contents bad o w1 -> w1 <= w2 -> tc l = c -> stat_faulted c = false ->
   t_stat ce l o w1 = (l1, o1) -> t_read contents bad ce l1 o1 w2 = (l2, o2) ->
   (exists wr, w1 <= wr /\ wr <= w2 /\
               tres l2 = at_world c w2 (if bad wr then [8] else text_answer c (contents wr))) /\
   t_inv contents bad o2 w2.
 Proof. exact text_call_spec. Qed.
 Print Assumptions C19_text_call_spec.
+
+(* a call whose os.stat FAILS transiently while the file is readable (the file is being replaced) does not
+   fail: the error becomes a version string different from that of every file state, the file is re-read
+   and the call answers for the state it read -- unless the previous reload was itself triggered by such a
+   failure (every failure yields the same string) *)
+Theorem C19_text_call_stat_fault : forall contents bad c l o w1 w2 l1 o1 l2 o2,
+  w1 <= w2 -> tc l = c -> stat_faulted c = true -> fver o <> Some 0 ->
+  t_stat true l o w1 = (l1, o1) -> t_read contents bad true l1 o1 w2 = (l2, o2) ->
+  tres l2 = at_world c w2 (if bad w2 then [8] else text_answer c (contents w2)) /\ t_inv contents bad o2 w2.
+Proof. exact text_call_stat_fault. Qed.
+Print Assumptions C19_text_call_stat_fault.
 
 (* ---- yaml_concurrent: get-item (locked); compile (unlocked, reading the files one by one while they
    may change); set-item (locked) -- any threads, calls, schedule, file changes: every cache item is a
